@@ -210,6 +210,23 @@ func contFailAt(r *core.Rand, k, retries int) Script {
 	return append(s, failRun(r, retries, false))
 }
 
+// failBypasses scripts, with probability p each, a failure of every bypass group (a passing bypass group skips
+// its whole scope, which most profiles do not want most of the time).
+func failBypasses(sp *Spec, r *core.Rand, p float64) {
+	sh := sp.Shape
+	for scope := -1; scope < len(sh.Blocks); scope++ {
+		gs := sh.G
+		if scope >= 0 {
+			gs = sh.Blocks[scope].G
+		}
+		if gs[GBypass] == nil || !r.Chance(p) {
+			continue
+		}
+		i := r.Intn(len(gs[GBypass].Retries))
+		sp.Scripts[ChkPath(scope, GBypass, i)] = Script{failRun(r, gs[GBypass].Retries[i], false)}
+	}
+}
+
 func setGate(sp *Spec, path string, run, att, gate int) {
 	s := sp.Scripts[path]
 	for len(s) <= run {
@@ -268,6 +285,7 @@ func genMixed(r *core.Rand, idx int, profile string, p shapeParams) *Spec {
 	sh := randShape(r, p)
 	sp := newSpec(profile, idx, "random", sh, r)
 	randomScripts(sp, r, 0.12, 0.12, 0.3, true)
+	failBypasses(sp, r, 0.6)
 	if r.Chance(0.4) {
 		sp.Kind = "random+holds"
 		g := 0
@@ -298,6 +316,7 @@ func genOrder(r *core.Rand, idx int) *Spec {
 	}
 	sp := newSpec("order", idx, "later-sequences-finish-first", sh, r)
 	randomScripts(sp, r, 0.05, 0.1, 0.15, false)
+	failBypasses(sp, r, 0.8)
 	if r.Chance(0.5) { // a failing action at a chosen position of one sequence
 		b := r.Intn(len(sh.Blocks))
 		q := r.Intn(len(sh.Blocks[b].Seqs))
@@ -346,6 +365,7 @@ func genConc(r *core.Rand, idx int) *Spec {
 	}
 	sp := newSpec("conc", idx, fmt.Sprintf("park-conc=%d-seqs=%d", c, nq), sh, r)
 	randomScripts(sp, r, 0.08, 0.08, 0.1, false)
+	failBypasses(sp, r, 0.9)
 	var gates []int
 	for q := 0; q < nq; q++ {
 		setGate(sp, SeqPath(0, q, 0), 0, 0, q+1)
@@ -427,6 +447,7 @@ func genTol(r *core.Rand, seed uint64, idx int) *Spec {
 		sh.G[GDeferred] = &Group{Retries: []int{0}}
 	}
 	sp.Shape = sh
+	failBypasses(sp, r, 0.9)
 	var gates []int
 	for q := 0; q < c.nseq; q++ { // the director permutes the completion order
 		setGate(sp, SeqPath(0, q, len(bl.Seqs[q])-1), 0, 0, q+1)
@@ -694,6 +715,7 @@ func genCont(r *core.Rand, idx int) *Spec {
 	k := (idx / 3) % 7 // 0 = no failure, 1..6 = the failing run
 	sp := newSpec("cont", idx, fmt.Sprintf("where=%s-k=%d", []string{"plan", "block", "both"}[where], k), sh, r)
 	randomScripts(sp, r, 0.05, 0.08, 0, false)
+	failBypasses(sp, r, 0.9)
 	if k > 0 {
 		scope := -1
 		if where == 1 || (where == 2 && r.Chance(0.5)) {
